@@ -100,7 +100,7 @@ pub fn replay(input: &str, output: &str) {
 
 fn milli(x: f64, allowed: f64) -> i64 { if x.is_finite() { ((x / allowed) * 1000.0).round().min(2e9) as i64 } else { 2_000_000_000 } }
 
-fn event(robot: &Robot, q: &Joints, eps: f64, r: &mut rand::rngs::StdRng, class: &str) -> Value {
+fn event(robot: &Robot, q: &Joints, eps: f64, r: &mut rand::rngs::StdRng, class: &str, pool: usize) -> Value {
     let p = robot.p;
     // geometric Jacobian of the stack: tool = product of tool/frame layers, base = product of bases
     let mut tool = Iso::identity();
@@ -108,11 +108,17 @@ fn event(robot: &Robot, q: &Joints, eps: f64, r: &mut rand::rngs::StdRng, class:
     for l in robot.layers.iter().rev() {
         match l { LayerF::Tool(i) | LayerF::Frame(i) => tool = tool.mul(i), LayerF::Base(i) => base = i.mul(&base), _ => {} }
     }
-    let geo = oracle::geometric_jacobian(&p, q, &tool, &base);
+    let mut geo = oracle::geometric_jacobian(&p, &robot.leaf_joints(q), &tool, &base);
+    // a coupling makes the leaf see q[coupled] - scaling * q[driven]: chain rule, innermost coupling first
+    for l in robot.layers.iter().rev() {
+        if let LayerF::Pgram { driven, coupled, scaling } = l {
+            for row in 0..6 { geo[row][*driven] -= scaling * geo[row][*coupled]; }
+        }
+    }
     let tool_len = oracle::norm(&tool.t);
     let allowed = 20.0 * eps * (1.0 + reach(&p) + tool_len);
     let kin = Dyn(robot.kin.as_ref());
-    let Some(j) = guarded(|| Jacobian::new(&kin, q, eps)) else { return json!({"ev": "jac", "outcome": "panic", "class": class}); };
+    let Some(j) = guarded(|| in_pool(pool, || Jacobian::new(&kin, q, eps))) else { return json!({"ev": "jac", "outcome": "panic", "class": class}); };
     let m = matrix_of(&j);
     let col_err: Vec<i64> = (0..6).map(|c| { let mut d: f64 = 0.0; for rr in 0..6 { d = d.max((m[rr][c] - geo[rr][c]).abs()); } milli(d, allowed) }).collect();
     // wrench -> torques: transpose; isometry and vector entry points agree
@@ -126,7 +132,10 @@ fn event(robot: &Robot, q: &Joints, eps: f64, r: &mut rand::rngs::StdRng, class:
     let tq_iso = j.torques(&wiso);
     let wv2 = Vector6::new(w[0], w[1], w[2], w[3] * 0.3, w[4] * 0.3, w[5] * 0.3);
     let tq_vec = j.torques_from_vector(&wv2);
-    let torque_agree = (0..6).map(|i| (tq_iso[i] - tq_vec[i]).abs()).fold(0.0, f64::max);
+    // the same rotation written with the opposite sign of the quaternion (w < 0) is the same wrench
+    let wiso_neg = Isometry3::from_parts(wiso.translation, nalgebra::UnitQuaternion::new_unchecked(-wiso.rotation.into_inner()));
+    let tq_neg = j.torques(&wiso_neg);
+    let torque_agree = (0..6).map(|i| (tq_iso[i] - tq_vec[i]).abs().max((tq_neg[i] - tq_vec[i]).abs())).fold(0.0, f64::max);
     // twist -> velocities: reproduce the twist through the geometric Jacobian when well conditioned
     let t: [f64; 6] = std::array::from_fn(|_| r.gen_range(-1.0..1.0));
     let tv = Vector6::new(t[0], t[1], t[2], t[3], t[4], t[5]);
@@ -163,16 +172,21 @@ pub fn record(output: &str) {
     let mut out = Out::create(output);
     let mut r = rng(1515);
     let n = if thorough() { 30_000 } else { 3_000 };
-    let stacks = ["bare", "tool", "base", "base+tool", "frame", "tool>base"];
+    let stacks = ["bare", "tool", "base", "base+tool", "frame", "tool>base", "pgram", "tool>pgram", "pgram>pgram"];
+    let mut last_q: Joints = [0.0; 6];
     for k in 0..n {
         let mut p = robots::geometry(robots::GEOMETRY_CLASSES[k % robots::GEOMETRY_CLASSES.len()], &mut r);
         p = robots::convention(p, r.gen_range(0..64), ["zero", "quarter", "random"][k % 3], &mut r);
         let sc = stacks[(k / 7) % stacks.len()];
         // miniature robots (a table-top arm): a well conditioned Jacobian with a tiny determinant
         if k % 9 == 4 { let f = r.gen_range(0.03..0.08); p.a1 *= f; p.a2 *= f; p.b *= f; p.c1 *= f; p.c2 *= f; p.c3 *= f; p.c4 *= f; }
-        let mut q: Joints = std::array::from_fn(|_| r.gen_range(-3.0..3.0));
+        // (one vector in four beyond a half turn; one in four is the very vector of the preceding call, given to
+        //  another robot / stack)
+        let span = if k % 4 == 1 { 6.3 } else { 3.0 };
+        let mut q: Joints = std::array::from_fn(|_| r.gen_range(-span..span));
+        if k % 4 == 3 { q = last_q; }
         // robots with limits, standing exactly at (or within half a step of) an upper limit
-        let limits = if k % 5 == 2 {
+        let limits = if k % 5 == 2 && k % 4 != 3 {
             let to: Joints = std::array::from_fn(|i| q[i] + r.gen_range(0.3..1.0));
             let from: Joints = std::array::from_fn(|i| q[i] - r.gen_range(0.3..1.0));
             let j = r.gen_range(0..6);
@@ -180,7 +194,8 @@ pub fn record(output: &str) {
             Some((from, to, 0.0))
         } else { None };
         let robot = Robot::new(p, solver::stack_for(sc, &mut r), limits);
-        out.put(event(&robot, &q, EPS[k % 3], &mut r, sc));
+        last_q = q;
+        out.put(event(&robot, &q, EPS[k % 3], &mut r, sc, 1 + (k * 7) % 16));
     }
     out.finish();
 }
